@@ -617,7 +617,7 @@ fn platt<F: Float>(case: &Case, spec: &BuilderSpec, out: &mut Outcome) {
 fn df_param(name: &'static str) -> Param {
     Param {
         name,
-        src: "linfa-preprocessing/src/countgrams/hyperparams.rs:189 \"`min_freq` and `max_freq` must lie in `0..=1`\"; error.rs:24 \"document frequencies have to be between 0 and 1\"; countgrams/mod.rs:215",
+        src: "linfa-preprocessing/src/countgrams/hyperparams.rs:189 \"`min_freq` and `max_freq` must lie in `0..=1`\"; error.rs:24 \"document frequencies have to be between 0 and 1\"; countgrams/mod.rs:219",
         vals: vec![
             (Sym::L(-1e10), "far_below", I, false),
             (Sym::NegTiny, "just_below", I, false),
@@ -652,7 +652,7 @@ pub fn count_vectorizer_spec() -> BuilderSpec {
             df_param("max_freq"),
             Param {
                 name: "split_regex",
-                src: "linfa-preprocessing/src/countgrams/mod.rs:216 \"if the regex expression for the split is invalid\"; error.rs:29 RegexError",
+                src: "linfa-preprocessing/src/countgrams/mod.rs:221 \"if the regex expression for the split is invalid\"; error.rs:29 RegexError",
                 vals: vec![(Sym::S(r"\b\w\w+\b"), "default", V, false), (Sym::S("("), "unparsable", I, false)],
             },
         ],
@@ -701,7 +701,7 @@ fn count_vectorizer(case: &Case, spec: &BuilderSpec, out: &mut Outcome) {
         format!("vocabulary={:?}", v)
     };
     // the count vectoriser does not use the Fit trait: its unchecked builder has inherent fit /
-    // fit_vocabulary methods that call check_ref first (countgrams/mod.rs:218, 251)
+    // fit_vocabulary methods that call check_ref first (countgrams/mod.rs:222, 255)
     let ops = vec![
         op(&make, "fit", |p| p.fit(&docs).map(|m| show(&m)).map_err(|e| dbg(&e)), |p| p.fit(&docs).map(|m| show(&m)).map_err(|e| dbg(&e)), |e| dbg(&e)),
         op(
